@@ -334,6 +334,44 @@ def run(db: DB, rep: Report) -> None:
     rep.rule("E8", "per-element flags tested by a guard are set within the element's own iteration", 2)
     _stale_flag_rule(db, rep, anchors, guard_raises)
 
+    # ---- E9 legality does not depend on the order of the specification's entries ------
+    rep.rule("E9", "a guard inside a loop does not read a collection that other entries of the same loop fill", 10)
+    for q, f in anchors.items():
+        for r in guard_raises.get(q, []):
+            loops = [p_ for p_ in paths.parents(r, f.node) if isinstance(p_, ast.For)]
+            gnames: Set[str] = set()
+            gtests = paths.guards(r, stop=f.node)
+            for t, _ in gtests:
+                gnames |= paths.load_names(t)
+            order_dep = []
+            for lp in loops:
+                for c in ast.walk(lp):
+                    if not (isinstance(c, ast.Call) and isinstance(c.func, ast.Attribute) and
+                            c.func.attr in ("add", "append", "update", "extend", "setdefault") and
+                            isinstance(c.func.value, ast.Name) and c.func.value.id in gnames):
+                        continue
+                    coll = c.func.value.id
+                    # created (empty) before the loop, at function level
+                    created = [st for st, v in paths.defs_of(f.node, coll)
+                               if not any(p_ is lp for p_ in paths.parents(st, f.node)) and v is not None and
+                               (isinstance(v, (ast.List, ast.Set, ast.Dict)) or
+                                (isinstance(v, ast.Call) and norm(v.func) in ("set", "list", "dict")))]
+                    if not created:
+                        continue
+                    # is the fill on a path that also evaluates the guard (a symmetric duplicate
+                    # check), or only on paths of *other* entries?
+                    ftests = {id(t): pol for t, pol in paths.guards(c, stop=f.node)}
+                    exclusive = any(id(t) in ftests and ftests[id(t)] != pol for t, pol in gtests)
+                    if exclusive:
+                        order_dep.append((coll, c))
+            rep.check("E9", not order_dep, db.loc(r), f.short, "order:" + norm(r.exc)[:40] if r.exc else "order",
+                      "the guard at %s does not depend on entries seen earlier" % db.loc(r),
+                      "the legality check at %s reads '%s', which the loop fills (at %s) only while it handles "
+                      "entries of another kind: whether an illegal specification is rejected depends on the "
+                      "order in which its entries are written" %
+                      (db.loc(r), order_dep[0][0] if order_dep else "",
+                       db.loc(order_dep[0][1]) if order_dep else ""))
+
     # ---- E6 guards range over the whole collection --------------------------
     rep.rule("E6", "loops carrying a guard iterate the whole collection with no early exit "
              "ahead of the test", 5)
@@ -466,10 +504,18 @@ def _symmetric_rule(db: DB, rep: Report) -> None:
 
 
 def mutants(db: DB):
-    from sa.selftest import M
+    from sa.selftest import M, Mutant, Edit
     pt = "teaal/ir/partitioning.py"
     eq = "teaal/ir/equation.py"
     return [
+        Mutant("shape-after-flatten guard reads a set filled by earlier entries", [
+            Edit("teaal/ir/partitioning.py", "        roots: Dict[str, List[str]] = {}\n",
+                 "        roots: Dict[str, List[str]] = {}\n        flattened: Set[str] = set()\n"),
+            Edit("teaal/ir/partitioning.py", "                ranks.add(flattened_rank)\n",
+                 "                ranks.add(flattened_rank)\n                flattened.add(flattened_rank)\n"),
+            Edit("teaal/ir/partitioning.py", "                    if source_name not in self.orig_ranks:\n                        raise ValueError(\n                            \"Shape-based",
+                 "                    if source_name in flattened:\n                        raise ValueError(\n                            \"Shape-based")],
+            ("E9",)),
         M("delete duplicate-rank guard", "teaal/ir/tensor.py",
           "            raise ValueError(\"All ranks must be unique; given \" + bad_tensor)\n",
           "            pass\n", "E1"),
